@@ -43,7 +43,8 @@ register(fn_contract(
     cases=[Case("ok", ensures={"value": "result == spec.ec.padd(p1, p2)",
                                "closed": "result is None or spec.ec.on_curve(result[0], result[1])"})],
     returns=PT_RET, options={"assumed": True, "bounded_only": True, "fixed_args": {"a": 0, "b": 7},
-                             "bounded_inputs": lambda: iter([{"p1": None, "p2": None}]), "bound": "placeholder"},
+                             "bounded_inputs": lambda: iter([{"p1": None, "p2": None}]),
+                             "bound": "trivial instance only: the textbook-law equality is PROVED as C03.point_add; this contract restates it over the spec's group symbols for modular use"},
 ))
 
 SMUL = f"{EC}.point_scalar_mul@C03.point_scalar_mul.assumed"
